@@ -261,6 +261,12 @@ def run(ctx, res):
     why = "missing"
     if m is not None:
         rets = [r for r in walk_local(m.node) if isinstance(r, ast.Return)]
+        if len(rets) == 1 and isinstance(rets[0].value, ast.Name):
+            # `result = distance(self, other); return result`: a local with one definition, returned at once
+            from ..astutil import single_defs
+            d_ = single_defs(m.node, m.params).get(rets[0].value.id)
+            if isinstance(d_, ast.Call):
+                rets = [ast.Return(value=d_)]
         if len(rets) == 1 and isinstance(rets[0].value, ast.Call):
             tg = eng.call_targets.get((m.qual, id(rets[0].value)), set())
             args = [txt(a) for a in rets[0].value.args]
